@@ -442,6 +442,13 @@ func (r *yieldRewriter) rewriteSwitchStmt(
 	pos *token.Pos, // maybe modified
 	children *block,
 ) *block {
+	// a `break` of this switch inside a case body that yields would end up in a thunk,
+	// where the branch pass (pass3) can only read it as leaving the enclosing loop;
+	// leaving the switch is completing it normally
+	if !r.mustNoYield(body) {
+		r.rewriteSwitchBreaks(body)
+	}
+
 	allCaseTrival := true
 	var cases []ast.Stmt
 	for _, it := range body.List {
@@ -491,6 +498,23 @@ func (r *yieldRewriter) rewriteSwitchStmt(
 	children = r.combineIfNecessary(children)
 	children.push(switchStmt, kindSwitch)
 	return children
+}
+
+// rewriteSwitchBreaks replaces the unlabelled breaks referring to the switch itself
+// (not the ones of nested loops / switches / selects / function literals) with return Normal()
+func (r *yieldRewriter) rewriteSwitchBreaks(body *ast.BlockStmt) {
+	astutil.Apply(body, func(c *astutil.Cursor) bool {
+		switch n := c.Node().(type) {
+		case *ast.ForStmt, *ast.RangeStmt, *ast.SwitchStmt, *ast.TypeSwitchStmt,
+			*ast.SelectStmt, *ast.FuncLit:
+			return false // a break in there refers to that stmt
+		case *ast.BranchStmt:
+			if n.Tok == token.BREAK && n.Label == nil {
+				c.Replace(X.Return(r.CallNormal()))
+			}
+		}
+		return true
+	}, nil)
 }
 
 func (r *yieldRewriter) rewriteForStmt(
